@@ -236,7 +236,7 @@ func regexUniverse() *ExecUniverse {
 		`\w+\s\w+`, `^\s*$`, "a{2}", "a{1,2}b", `\.`, "^b", "b$", ".", "^.$", "^..$", "A", "[A-Z]", `a\b`, "(?:a|b)c", "", "x*", "^$", "a+?b", `\Aa`, `a\z`,
 		`[a\]]`, `\$`, "a.", ".b", "^.*$", "(a)(b)", "[ab][ab]", `\S+`, `\D`, "a*", "^a*$", "b+$", "^(a|b)*$", "a\nb", "a$\nb", "^a$|^b$",
 		// text that is special to a quoting construct: under the q flag every character stands for itself
-		`a\Eb`, `\Qa\E`, `a\Q`, `\E`, `a\\`, `(`, `[a`, `a)`, `*a`}
+		`a\Eb`, `\Qa\E`, `a\Q`, `\E`, `a\\`, `(`, `[a`, `a)`, `*a`, `a\E.\Q`, `a\E.*\Qb`, `.`, `a.b`, `^a`, `a|b`}
 	flagSets := []wire.Flags{{}, {I: true}, {S: true}, {M: true}, {Q: true}, {I: true, S: true}, {I: true, M: true}, {S: true, M: true}, {I: true, Q: true}, {I: true, S: true, M: true}, {S: true, M: true, Q: true}}
 	subjects := []string{"", "a", "b", "ab", "ba", "aab", "A", "AB", "a\nb", "\n", "a1", "a b", "ab\n", "b\na", "aaa", "1", " ", "a.b", "$", "abc", "A\nB", "\nb", "a\n", "12", "a]", "ac"}
 	var subjVals []wire.Value
@@ -321,6 +321,12 @@ func init() {
 				seqs = append(seqs, []wire.Value{a, b})
 			}
 		}
+		// an array among the items of an operand (lax unwraps it in place: the items
+		// after it must still be seen), first, in the middle and last
+		a12, a123 := wire.Arr(wire.Float(1), wire.Float(2)), wire.Arr(wire.Float(1), wire.Float(2), wire.Float(4))
+		seqs = append(seqs, []wire.Value{a12, wire.Float(3)}, []wire.Value{a12, wire.StrV("x")}, []wire.Value{wire.Float(3), a12},
+			[]wire.Value{a123, wire.Float(5), wire.Float(3)}, []wire.Value{wire.Float(5), a123, wire.Float(3)}, []wire.Value{a12, a12, wire.Float(3)},
+			[]wire.Value{wire.Arr(), wire.Float(3)}, []wire.Value{wire.Arr(wire.StrV("x"), wire.StrV("y")), wire.StrV("xz")})
 		u := &ExecUniverse{Vars: []VarsRow{{Vars: []wire.Var{}}}}
 		side := func(k string) []wire.Node {
 			return []wire.Node{{K: "root"}, {K: "key", S: wire.Bytes(k)}, {K: "anyarr"}}
@@ -378,6 +384,9 @@ func init() {
 		ru := regexUniverse()
 		rc.cov("like_regex", map[string]any{"patterns": 60, "flag_sets": 11, "subjects": 31, "cases": len(ru.Cases)})
 		rc.execFamily(ru, "C12", "C01")
+
+		// datetimes by instant: the special values of spec/DTLaws.tla, every pair
+		dtPairsCheck(rc, "C12", "C01")
 
 		s := []string{}
 		for _, x := range slots {
